@@ -69,6 +69,15 @@ func (pnf *PageNumberFinder) FindPagination(root *html.Node, pageURL *nurl.URL) 
 	url.RawPath = url.Path
 	strPageURL := stringutil.UnescapedString(&url)
 
+	// The URLs in page info are escaped and have no user info (see getPageInfoAndText
+	// and DetectParamInfo), so this page is recognized in that form as well.
+	cleanURL := url
+	cleanURL.User = nil
+	escPageURL := cleanURL.String()
+	isCurrentPage := func(pageInfoURL string) bool {
+		return pageInfoURL == strPageURL || pageInfoURL == escPageURL
+	}
+
 	paramInfo := pnf.FindOutlink(root, &url)
 	if paramInfo.Type != info.PageNumber {
 		return
@@ -94,7 +103,7 @@ func (pnf *PageNumberFinder) FindPagination(root *html.Node, pageURL *nurl.URL) 
 	if pagination.NextPage == "" && nPageInfo > 0 {
 		for i := nPageInfo - 1; i >= 0; i-- {
 			currentInfo := paramInfo.AllPageInfo[i]
-			if currentInfo.URL != strPageURL {
+			if !isCurrentPage(currentInfo.URL) {
 				pagination.PrevPage = currentInfo.URL
 				break
 			}
@@ -115,7 +124,7 @@ func (pnf *PageNumberFinder) FindPagination(root *html.Node, pageURL *nurl.URL) 
 
 		for i := nextPageIdx - 1; i >= 0; i-- {
 			currentURL := paramInfo.AllPageInfo[i].URL
-			if currentURL == "" || currentURL != strPageURL {
+			if currentURL == "" || !isCurrentPage(currentURL) {
 				pagination.PrevPage = currentURL
 				break
 			}
